@@ -561,7 +561,11 @@ fn tail(v: &[Word]) -> String {
 pub fn run(ctx: &Ctx) {
     use asm::{Access as A, Alu, Crypto, Memory as M, Pred, Stack as S, StateRead as R, TotalControlFlow as T};
     let env = env();
-    let pool: W = vec![0, 1, 2, 3, -1, -2, -3, -4, 63, 64, 65, 4095, 4096, Word::MIN, Word::MAX, Word::MIN + 1, -64];
+    let pool: W = vec![
+        0, 1, 2, 3, -1, -2, -3, -4, 63, 64, 65, 4095, 4096, Word::MIN, Word::MAX, Word::MIN + 1, -64,
+        // half-word boundaries, the integer square root of 2^63, a shift amount whose low 32 bits look valid
+        (1 << 31) - 1, 1 << 31, (1 << 32) - 1, 1 << 32, (1 << 32) + 5, 3_037_000_499, 3_037_000_500, -3_037_000_500, 1 << 62, -(1 << 31), (1 << 40) | 3,
+    ];
     let small: W = vec![0, 1, 2, 3, -1, 4, Word::MAX, Word::MIN];
     let bases: Vec<W> = vec![vec![], vec![11], vec![11, 22, 33], vec![5, 6, 7, 8, 9, 10]];
     let mems: Vec<W> = vec![vec![], vec![70], vec![70, 71, 72, 73]];
@@ -705,7 +709,7 @@ pub fn run(ctx: &Ctx) {
     for (ri, r) in [R::KeyRange, R::KeyRangeExtern, R::PostKeyRange, R::PostKeyRangeExtern].into_iter().enumerate() {
         for (ki, key) in keys.iter().enumerate() {
             for nk in [0i64, 1, 2, 3, -1] {
-                for addr in [0i64, 1, 5, 12, -1] {
+                for addr in [0i64, 1, 5, 12, -1, Word::MAX, Word::MAX - 1, Word::MAX - 3] {
                     for msize in [0usize, 6, 14] {
                         let mut s: W = vec![33];
                         if ri % 2 == 1 {
